@@ -197,6 +197,207 @@ def render_cmp(arms):
     return "\n".join(lines)
 
 
+
+# ---- pattern dispatch chain of String::into_identifier ----------------------------------------
+def rust_lit(tok):
+    """a Rust char or str literal -> Python string (only the escapes that occur here)"""
+    tok = tok.strip()
+    if len(tok) >= 2 and tok[0] == tok[-1] and tok[0] in "'\"":
+        body = tok[1:-1]
+        body = body.replace("\\'", "'").replace('\\"', '"').replace("\\\\", "\\")
+        if "\\" in body and body not in ("\\",):
+            fail("escape in literal " + tok)
+        return body
+    fail("not a literal: " + tok)
+
+
+def split_chain(text):
+    """`if C1 { B1 } else if C2 { B2 } ... else { Bn }` -> [(cond or None, body)], brace matching
+    (string/char literals are skipped)"""
+    i, n = 0, len(text)
+    out = []
+
+    def skip_ws(i):
+        while i < n and text[i].isspace():
+            i += 1
+        return i
+
+    def block(i):
+        # text[i] == '{'; returns (body, index after the matching '}')
+        depth, j = 0, i
+        while j < n:
+            c = text[j]
+            if c == '"':
+                j += 1
+                while j < n and text[j] != '"':
+                    j += 2 if text[j] == "\\" else 1
+            elif c == "'" and j + 2 < n and (text[j + 2] == "'" or (text[j + 1] == "\\" and j + 3 < n and text[j + 3] == "'")):
+                j += 3 if text[j + 2] == "'" else 4
+                continue
+            elif c == "{":
+                depth += 1
+            elif c == "}":
+                depth -= 1
+                if depth == 0:
+                    return text[i + 1:j], j + 1
+            j += 1
+        fail("unbalanced braces in into_identifier")
+
+    i = skip_ws(i)
+    while True:
+        if text.startswith("if", i) and (text[i + 2].isspace() or text[i + 2] == "("):
+            j = i + 2
+            # the condition runs to the '{' that opens the body: the first '{' at paren depth 0 outside literals
+            depth = 0
+            k = j
+            while k < n:
+                c = text[k]
+                if c == '"':
+                    k += 1
+                    while k < n and text[k] != '"':
+                        k += 2 if text[k] == "\\" else 1
+                elif c == "'" and k + 2 < n and (text[k + 2] == "'" or (text[k + 1] == "\\" and k + 3 < n and text[k + 3] == "'")):
+                    k += 3 if text[k + 2] == "'" else 4
+                    continue
+                elif c == "(":
+                    depth += 1
+                elif c == ")":
+                    depth -= 1
+                elif c == "{" and depth == 0:
+                    break
+                k += 1
+            cond = " ".join(text[j:k].split())
+            body, i = block(k)
+            out.append((cond, body))
+            i = skip_ws(i)
+            if text.startswith("else", i):
+                i = skip_ws(i + 4)
+                if text.startswith("if", i):
+                    continue
+                body, i = block(i)
+                out.append((None, body))
+                i = skip_ws(i)
+                break
+            fail("if without else in the pattern chain")
+        else:
+            fail("pattern chain does not start with if")
+    rest = text[i:].strip()
+    if rest != ";":
+        fail("text after the pattern chain: " + rest[:40])
+    return out
+
+
+CMPK = {"Equal": "KEq", "GreaterThan": "KGt", "GreaterThanOrEqual": "KGe", "LessThan": "KLt", "LessThanOrEqual": "KLe"}
+STRK = {"Contains": "KContains", "EndsWith": "KEndsWith", "StartsWith": "KStartsWith", "Exact": "KExact"}
+
+
+def extract_ident(src):
+    src = strip_comments(src)
+    m = re.search(r"impl\s+IdentifierParser\s+for\s+String\s*\{\s*fn\s+into_identifier\s*\(\s*self\s*\)\s*->\s*crate::Result<Identifier>\s*\{(.*?)\n    \}\n\}", src, re.S)
+    if not m:
+        fail("impl IdentifierParser for String not found")
+    body = m.group(1)
+    # 1. the case prefix
+    pm = re.match(r"\s*let\s*\(\s*insensitive\s*,\s*string\s*\)\s*=\s*if\s+cfg!\(\s*feature\s*=\s*\"ignore_case\"\s*\)\s*\{\s*\(\s*true\s*,\s*&self\[\.\.\]\s*\)\s*\}\s*"
+                  r"else\s+if\s+let\s+Some\(\s*s\s*\)\s*=\s*self\.strip_prefix\(\s*('(?:[^'\\]|\\.)'|\"(?:[^\"\\]|\\.)*\")\s*\)\s*\{\s*\(\s*true\s*,\s*s\s*\)\s*\}\s*"
+                  r"else\s*\{\s*\(\s*false\s*,\s*&self\[\.\.\]\s*\)\s*\}\s*;", body, re.S)
+    if not pm:
+        fail("case prefix (`let (insensitive, string) = ..`) not of the expected shape")
+    prefix = rust_lit(pm.group(1))
+    rest = body[pm.end():]
+    cm = re.match(r"\s*let\s+pattern\s*=\s*", rest)
+    if not cm:
+        fail("`let pattern =` does not follow the case prefix")
+    rest = rest[cm.end():]
+    tail = re.search(r"\n\s*Ok\(\s*Identifier\s*\{\s*ignore_case\s*:\s*insensitive\s*,\s*pattern\s*,?\s*\}\s*\)\s*$", rest, re.S)
+    if not tail:
+        fail("into_identifier does not end in Ok(Identifier { ignore_case: insensitive, pattern })")
+    chain = split_chain(rest[:tail.start()])
+    lit = r"('(?:[^'\\]|\\.)'|\"(?:[^\"\\]|\\.)*\")"
+    arms = []
+    for idx, (cond, b) in enumerate(chain):
+        bound = None
+        if cond is None:
+            test = ("TElse",)
+        else:
+            mm = re.match(r"^let Some\(\s*s\s*\) = string\.strip_(prefix|suffix)\(\s*" + lit + r"\s*\)$", cond)
+            if mm:
+                test = ("TPrefix" if mm.group(1) == "prefix" else "TSuffix", rust_lit(mm.group(2)))
+                bound = "s"
+            elif re.match(r"^string == " + lit + "$", cond):
+                test = ("TEq", rust_lit(re.match(r"^string == " + lit + "$", cond).group(1)))
+            elif re.match(r"^string\.starts_with\(\s*" + lit + r"\s*\) && string\.ends_with\(\s*" + lit + r"\s*\)$", cond):
+                mm = re.match(r"^string\.starts_with\(\s*" + lit + r"\s*\) && string\.ends_with\(\s*" + lit + r"\s*\)$", cond)
+                a, c = rust_lit(mm.group(1)), rust_lit(mm.group(2))
+                if len(a) != 1 or len(c) != 1:
+                    fail("starts_with/ends_with on more than one character")
+                test = ("TStartsEnds", a, c)
+            else:
+                mm = re.match(r"^string\.len\(\) > 1 && \(\s*(.*)\s*\)$", cond)
+                if not mm:
+                    fail("test of a pattern arm: " + cond[:80])
+                qs = []
+                for alt in re.split(r"\s*\|\|\s*", mm.group(1)):
+                    am = re.match(r"^\(\s*string\.starts_with\(\s*" + lit + r"\s*\) && string\.ends_with\(\s*" + lit + r"\s*\)\s*\)$", alt.strip())
+                    if not am or rust_lit(am.group(1)) != rust_lit(am.group(2)) or len(rust_lit(am.group(1))) != 1:
+                        fail("quoted test: " + alt[:60])
+                    qs.append(rust_lit(am.group(1)))
+                test = ("TQuoted", qs)
+        flat = " ".join(b.split())
+        if re.match(r"^Pattern::Regex\( RegexBuilder::new\(s\) \.case_insensitive\(insensitive\) \.build\(\) \.map_err\(crate::error::parse_invalid_ident\)\?, \)$", flat):
+            if bound != "s":
+                fail("regex arm without the stripped rest")
+            bodyk = ("BRegex",)
+        elif flat == "Pattern::Any":
+            bodyk = ("BAny",)
+        else:
+            nm = re.match(r"^if s\.contains\('\.'\) \{ Pattern::F(\w+)\( s\.parse::<f64>\(\) \.map_err\(crate::error::parse_invalid_ident\)\?, \) \} "
+                          r"else \{ Pattern::(\w+)\( s\.parse::<i64>\(\) \.map_err\(crate::error::parse_invalid_ident\)\?, \) \}$", flat)
+            if nm:
+                if nm.group(1) != nm.group(2) or nm.group(1) not in CMPK or bound != "s":
+                    fail("numeric arm pairs Pattern::F%s with Pattern::%s" % (nm.group(1), nm.group(2)))
+                bodyk = ("BNum", CMPK[nm.group(1)])
+            else:
+                sm = re.match(r"^let s = if insensitive \{ (.+?)\.to_ascii_lowercase\(\) \} else \{ (.+?)\.(?:to_string|to_owned)\(\) \}; Pattern::(\w+)\(s\)$", flat)
+                if not sm or sm.group(1) != sm.group(2) or sm.group(3) not in STRK:
+                    fail("body of a pattern arm: " + flat[:100])
+                e = sm.group(1)
+                if e == "string[1..string.len() - 1]":
+                    srck = "SInner"
+                elif e == "s" and bound == "s":
+                    srck = "SStripped"
+                elif e == "string":
+                    srck = "SWhole"
+                else:
+                    fail("string arm built from " + e)
+                bodyk = ("BStr", STRK[sm.group(3)], srck)
+        arms.append((test, bodyk))
+    if not arms or arms[-1][0] != ("TElse",) or any(t == ("TElse",) for t, _ in arms[:-1]):
+        fail("the pattern chain does not end in exactly one else")
+    return prefix, arms
+
+
+def render_ident(prefix, arms):
+    def t(x):
+        if x[0] in ("TPrefix", "TSuffix", "TEq"):
+            return "%s %s" % (x[0], coq_str(x[1]))
+        if x[0] == "TStartsEnds":
+            return "TStartsEnds %d%%N %d%%N" % (ord(x[1]), ord(x[2]))
+        if x[0] == "TQuoted":
+            return "TQuoted [%s]%%N" % "; ".join(str(ord(q)) for q in x[1])
+        return "TElse"
+
+    def b(x):
+        return " ".join(x)
+    lines = ["(* AUTO-GENERATED by tools/gen_tables.py from src/identifier.rs (String::into_identifier: the case"
+             "\n   prefix and the `let pattern = if .. else if .. else ..` chain, arms in source order) -- do not edit. *)",
+             "From TauModel Require Import Base Syntax Ident IdentTable.", "",
+             "Definition ident_ci_prefix : str := %s." % coq_str(prefix), "",
+             "Definition ident_chain : list ident_arm :=",
+             "  [" + ";\n   ".join("(%s, %s)" % (t(x), b(y)) for x, y in arms) + "].", ""]
+    return "\n".join(lines)
+
+
 def coq_str(s):
     return "[" + "; ".join(str(ord(ch)) for ch in s) + "]%N"
 
@@ -262,6 +463,18 @@ def main():
         status["solver_cmp"] = "ok"
     except Unrecognised as e:
         status["solver_cmp"] = "shape not recognised: %s" % e
+    # table 3: the pattern dispatch of into_identifier
+    try:
+        try:
+            isrc = open(os.path.join(REPO, "src", "identifier.rs"), encoding="utf-8").read()
+        except OSError as e:
+            fail("cannot read identifier.rs: %s" % e)
+        prefix, iarms = extract_ident(isrc)
+        info["ident_changed"] = write_if_changed(os.path.join(os.path.dirname(out), "GeneratedIdent.v"), render_ident(prefix, iarms))
+        info["ident_arms"] = len(iarms)
+        status["identifier"] = "ok"
+    except Unrecognised as e:
+        status["identifier"] = "shape not recognised: %s" % e
     info["status"] = status
     if "--json" in sys.argv:
         print(json.dumps(info))
